@@ -1386,6 +1386,15 @@ func runC03(o *Out, r *rand.Rand, thorough bool, _ []string) {
 				c.top(blk.header, cont, "honest")
 				p1 := ps[1%len(ps)]
 				c.top(b.blocks[p1].header, b.honest(ec.layout, p1, slotBase+uint64(p1)), "honest")
+				// a lagging oracle: the validator already trusts the full list; a proof beyond every summary (rightly rejected) makes
+				// it ask an oracle that knows FEWER summaries than it does - what it trusted before it still trusts afterwards
+				if at > 0 {
+					c.setTables(nil, nil, list, &c03Oracle{list: short})
+					c.top(blk.header, cont, "honest")
+					c.top(blk.header, b.honest(ec.layout, p, c03CapStart+uint64(tl)*c03Epoch+uint64(p)), "oor")
+					c.top(blk.header, cont, "honest")
+					c.top(b.blocks[p1].header, b.honest(ec.layout, p1, slotBase+uint64(p1)), "honest")
+				}
 			}
 		}
 	}
